@@ -21,13 +21,16 @@ Third group (the primitive edits): _find_in_leg, find, is_included, append, remo
 returns the new legs; `self.is_check` is a bool parameter; `try: k = L.index(x) except ValueError: k = c` is the position or c; `for i, x in enumerate(L)` (L not
 changed in the body) and `for i in range(a, b, -1)` are structural recursion over the items computed at loop entry, `return` inside them leaves the function;
 `del L[i]`, `L.insert(i, x)` with Python's index normalisation (norm_idx / Model/Collection.norm_insert); `L[i][j] = x` stores into the inner list;
-`[L[i] for i in range(0, j)]` is the first j members."""
+`[L[i] for i in range(0, j)]` is the first j members.
+Fourth group (look-ups of the steps): get_lits, lit, get_pq.  A trailing parameter `x: list[PauliString] = None` is an option; `if x is None: x = self.f()` makes it a
+list from there on; a local that is assigned None and strings is an option, `x is (not) None` tests it, using it as a string when it is None is TypeError;
+`if self.is_included(v):` binds the callee's answer first; `for v in L` with `return` (L not changed) is structural recursion over L."""
 import ast, os
 from py2coq import Unsupported, bad
 
 PROP = "| FNone => FNone | FRaised e_ => FRaised e_ | FNonInt => FNonInt | FOutOfFuel => FOutOfFuel end"
 VE = 'FRaised (EUser "ValueError"%string)'
-CT = {"ps": "pstr", "list": "(list pstr)", "int": "Z", "legs": "(list (list pstr))", "bool": "bool", "unit": "unit"}
+CT = {"ps": "pstr", "list": "(list pstr)", "int": "Z", "legs": "(list (list pstr))", "bool": "bool", "unit": "unit", "ops": "(option pstr)", "olist": "(option (list pstr))"}
 ELT = {"list": "ps", "legs": "list"}
 
 
@@ -41,11 +44,16 @@ class QFn:
         self.tr, self.node, self.name = tr, node, node.name
         self.coq = "py_Q_" + node.name
         args = node.args.args
-        if not args or args[0].arg != "self" or node.args.defaults or node.args.kwonlyargs or node.args.vararg or node.args.kwarg: bad(node, "signature")
+        if not args or args[0].arg != "self" or node.args.kwonlyargs or node.args.vararg or node.args.kwarg: bad(node, "signature")
+        if [ast.unparse(d) for d in node.args.defaults] not in ([], ["None"]): bad(node, "default values")
+        self.optional = args[-1].arg if node.args.defaults else None
         self.params = []
         for a in args[1:]:
             t = ast.unparse(a.annotation) if a.annotation is not None else None
-            if t in ("list[PauliString]", None) and a.arg != "pauli_string": self.params.append((a.arg, "list"))
+            if a.arg == self.optional:
+                if t != "list[PauliString]": bad(a, "optional parameter type %s" % t)
+                self.params.append((a.arg, "olist"))
+            elif t in ("list[PauliString]", None) and a.arg != "pauli_string": self.params.append((a.arg, "list"))
             elif t == "PauliString": self.params.append((a.arg, "ps"))
             else: bad(a, "parameter type %s" % t)
         r = ast.unparse(node.returns)
@@ -63,6 +71,8 @@ class QFn:
         if self.mutator and self.mut_legs:
             self.retnames = ["self_legs"]; self.ret = ["legs"]
         elif r == "PauliString | None": self.ret = ["ps"]
+        elif r == "PauliString": self.ret = ["ps"]
+        elif r == "tuple[PauliString | None, PauliString | None]": self.ret = ["ps", "ps"]
         elif r == "int": self.ret = ["int"]
         elif r == "tuple[int, int]": self.ret = ["int", "int"]
         elif self.mutator:
@@ -133,6 +143,10 @@ class QFn:
         if isinstance(t, ast.BoolOp) and isinstance(t.op, ast.And):
             return [c for v in t.values for c in self.cond(v, env)]
         if ast.unparse(t) == "self.is_check" and "self_is_check" in env: return [("v_self_is_check", [], None)]
+        if isinstance(t, ast.Compare) and len(t.ops) == 1 and isinstance(t.ops[0], (ast.Is, ast.IsNot)) and isinstance(t.left, ast.Name) and env.get(t.left.id) in ("ops", "olist") \
+           and isinstance(t.comparators[0], ast.Constant) and t.comparators[0].value is None:
+            c = "(match v_%s with Some _ => false | None => true end)" % t.left.id
+            return [(c if isinstance(t.ops[0], ast.Is) else "(negb %s)" % c, [], None)]
         if isinstance(t, ast.BoolOp) and isinstance(t.op, ast.Or):
             parts = [self.cond(v, env) for v in t.values]
             if any(len(p_) != 1 or p_[0][1] or p_[0][2] is not None for p_ in parts): bad(t, "or of conditions that can raise")
@@ -236,12 +250,58 @@ class QFn:
                 return self.guard(cs[0][1], "(FRet %s)" % cs[0][0])
             if isinstance(s.value, ast.Tuple):
                 if all(isinstance(x, ast.Constant) and x.value is None for x in s.value.elts): return "FNone"
+                onames = sorted({n_.id for x in s.value.elts for n_ in ast.walk(x) if isinstance(n_, ast.Name) and env.get(n_.id) == "ops"})
+                if onames:
+                    # the option variables are used as strings: None @ x is a TypeError
+                    env2 = dict(env)
+                    for nm in onames: env2[nm] = "ps"
+                    vals = []
+                    for x in s.value.elts:
+                        if isinstance(x, ast.BinOp) and isinstance(x.op, ast.MatMult):
+                            a_, ta, ga = self.expr(x.left, env2); b_, tb, gb = self.expr(x.right, env2)
+                            if (ta, tb) != ("ps", "ps") or ga or gb: bad(s, "@ in a returned tuple")
+                            vals.append(("m_", "multiply_code %s %s" % (a_, b_)))
+                        else:
+                            c_, t_, g_ = self.expr(x, env2)
+                            if t_ != "ps" or g_: bad(s, "returned tuple element")
+                            vals.append((c_, None))
+                    if sum(1 for _, m in vals if m) > 1: bad(s, "two products in a returned tuple")
+                    inner = "(FRet %s)" % pat(c_ for c_, _ in vals)
+                    for c_, m in vals:
+                        if m: inner = "(match %s with Ok m_ => %s | ValueError => %s end)" % (m, inner, VE)
+                    return "(match %s with %s => %s | %s => FRaised EType end)" % (", ".join("v_" + nm for nm in onames), ", ".join("Some v_" + nm for nm in onames), inner, ", ".join("_" for _ in onames))
                 vals = [self.expr(x, env) for x in s.value.elts]
                 if [t for _, t, _ in vals] != self.ret: bad(s, "returned types")
                 return self.guard([g for _, _, gg in vals for g in gg], "(FRet %s)" % pat(c for c, _, _ in vals))
+            if isinstance(s.value, ast.ListComp) and len(s.value.generators) == 1 and len(s.value.generators[0].ifs) == 1 and isinstance(s.value.generators[0].target, ast.Name) \
+               and isinstance(s.value.elt, ast.Name) and s.value.elt.id == s.value.generators[0].target.id and self.ret == ["list"]:
+                lc = s.value
+                it, ti, gi_ = self.expr(lc.generators[0].iter, env)
+                if ti != "list" or gi_: bad(lc, "comprehension over %s" % ti)
+                x = lc.generators[0].target.id
+                benv = dict(env); benv[x] = "ps"
+                return "(fold_left (fun (o_ : fres (list pstr)) (v_%s : pstr) => match o_ with FRet acc_ => %s %s) %s (FRet (@nil pstr)))" % (
+                    x, self.branch(lc.generators[0].ifs[0], benv, "(FRet (acc_ ++ [v_%s]))" % x, "(FRet acc_)"), PROP, it)
             c, t, g = self.expr(s.value, env)
             if [t] != self.ret: bad(s, "returned type %s" % t)
             return self.guard(g, "(FRet %s)" % c)
+        if isinstance(s, ast.If) and not s.orelse and len(s.body) == 1 and isinstance(s.test, ast.Compare) and isinstance(s.test.ops[0], ast.Is) and isinstance(s.test.left, ast.Name) \
+           and env.get(s.test.left.id) == "olist" and isinstance(s.body[0], ast.Assign) and isinstance(s.body[0].targets[0], ast.Name) and s.body[0].targets[0].id == s.test.left.id \
+           and self.callee(s.body[0].value) is not None and self.callee(s.body[0].value).ret == ["list"]:
+            # if X is None: X = self.f(...)   -- from here on X is a list
+            X = s.test.left.id
+            fn = self.callee(s.body[0].value)
+            args, g = self.call_args(fn, s.body[0].value, env)
+            env2 = dict(env); env2[X] = "list"
+            body = self.block(rest, env2, ft, cont)
+            return "(match v_%s with Some l_ => (let v_%s := l_ in %s) | None => %s end)" % (X, X, body, self.guard(g, "(match %s %s with FRet r_ => let v_%s := r_ in %s %s)" % (fn.coq, " ".join(args), X, body, PROP)))
+        if isinstance(s, ast.If) and isinstance(s.test, ast.Call) and self.callee(s.test) is not None and self.callee(s.test).ret == ["bool"] and not self.callee(s.test).purebool:
+            fn = self.callee(s.test)
+            args, g = self.call_args(fn, s.test, env)
+            ends = lambda b: isinstance(b[-1], (ast.Return, ast.Continue, ast.Raise)) if b else False
+            yes = self.block(s.body, env, (lambda e2: self.block(rest, e2, ft, cont)), cont) if not ends(s.body) else self.block(s.body, env, ft, cont)
+            no = self.block(s.orelse, env, (lambda e2: self.block(rest, e2, ft, cont)), cont) if s.orelse else R(env)
+            return self.guard(g, "(match %s %s with FRet b_ => if b_ then %s else %s %s)" % (fn.coq, " ".join(args), yes, no, PROP))
         if isinstance(s, ast.If):
             ends = lambda b: isinstance(b[-1], (ast.Return, ast.Continue)) if b else False
             yes = self.block(s.body, env, (lambda e2: self.block(rest, e2, ft, cont)), cont) if not ends(s.body) else self.block(s.body, env, ft, cont)
@@ -327,6 +387,13 @@ class QFn:
                 return self.guard(g, "(match %s %s with FRet r_ => let %s := r_ in %s | FNone => %s | FRaised e_ => FRaised e_ | FNonInt => FNonInt | FOutOfFuel => FOutOfFuel end)" % (
                     fn.coq, " ".join(args), ("'" if len(names) > 1 else "") + pat("v_" + n for n in names), R(env2), none))
             if not isinstance(tg, ast.Name): bad(s, "assignment target")
+            if isinstance(v, ast.Constant) and v.value is None and env.get(tg.id, "ops") == "ops":
+                env2 = dict(env); env2[tg.id] = "ops"
+                return "(let v_%s := (@None pstr) in %s)" % (tg.id, R(env2))
+            if env.get(tg.id) == "ops":
+                c, t, g = self.expr(v, env)
+                if t != "ps": bad(s, "assignment of %s to an optional string" % t)
+                return self.guard(g, "(let v_%s := (Some %s) in %s)" % (tg.id, c, R(env)))
             c, t, g = self.expr(v, env)
             if env.get(tg.id, t) != t: bad(s, "%s changes type" % tg.id)
             env2 = dict(env); env2[tg.id] = t
@@ -392,6 +459,8 @@ class QFn:
                 sp = (("'" if len(state) > 1 else "") + pat("v_" + n for n in state)) if state else "_"
                 return "(match fold_left (fun (o_ : fres (%s)) (v_%s : %s) => match o_ with FRet st_ => let %s := st_ in %s %s) v_%s (FRet %s) with FRet st_ => let %s := st_ in %s %s)" % (
                     " * ".join(CT[env[n]] for n in state) if state else "unit", x, CT[ELT[env[L]]], sp, body, PROP, L, stt, sp, R(env), PROP)
+            if L not in asg:
+                return self.range_loop(s, rest, env, ft, cont, plain=True)
             return self.loop(s, rest, env, ft, cont, index=(L, x))
         if isinstance(s, ast.While) and not s.orelse:
             return self.loop(s, rest, env, ft, cont, index=None)
@@ -423,12 +492,16 @@ class QFn:
             name, ps, " ".join("(v_%s : %s)" % (n, CT[env[n]]) for n in vs), self.rett(), inner))
         return "(%s fuel %s%s)" % (name, start, " ".join("v_" + n for n in vs))
 
-    def range_loop(self, s, rest, env, ft, cont, enum=False, down=False):
+    def range_loop(self, s, rest, env, ft, cont, enum=False, down=False, plain=False):
         """for i in range(a, b) / range(a, b, -1) / for i, x in enumerate(L): ... (with break / continue / return): a Fixpoint by structural recursion over the
         items (computed once at loop entry, as Python's range and — for a list the body does not change — enumerate do); what follows the loop is inside it"""
         if cont is not None or self.brk is not None: bad(s, "a nested loop of this kind")
         benv = dict(env)
-        if enum:
+        if plain:
+            L = s.iter.id
+            benv[s.target.id] = ELT[env[L]]
+            items, ity, ipat, g0, fresh = "v_" + L, CT[ELT[env[L]]], "v_" + s.target.id, [], [s.target.id]
+        elif enum:
             L, tL, gL = self.expr(s.iter.args[0], env)
             if tL not in ELT or gL: bad(s, "enumerate of %s" % tL)
             if any(isinstance(n_, (ast.Delete,)) or (isinstance(n_, ast.Attribute) and n_.attr in ("insert", "append", "remove")) for b_ in s.body for n_ in ast.walk(b_)): bad(s, "the enumerated list is changed in the loop")
@@ -465,7 +538,8 @@ class QFn:
 
     def call_args(self, fn, v, env):
         fparams = [p_ for p_ in fn.params if p_[0] not in ("self_legs", "self_is_check")]
-        if len(v.args) != len(fparams): bad(v, "arity of %s" % fn.name)
+        missing = fn.optional is not None and len(v.args) == len(fparams) - 1
+        if len(v.args) != len(fparams) and not missing: bad(v, "arity of %s" % fn.name)
         cs, gs = ([self.fuelname] if fn.fuel else []), []
         if fn.fuel: self.fuel = True
         if fn.needs_legs:
@@ -477,8 +551,10 @@ class QFn:
         for a, (_, pt) in zip(v.args, fparams):
             if fn.mutator and pt == "list" and not isinstance(a, ast.Name): bad(v, "a list argument that is changed in place must be a name")
             c, t, g = self.expr(a, env)
+            if pt == "olist" and t == "list": c, t = "(Some %s)" % c, "olist"
             if t != pt: bad(v, "argument type %s for %s" % (t, pt))
             cs.append(c); gs += g
+        if missing: cs.append("(@None (list pstr))")
         return cs, gs
 
     def emit(self):
@@ -515,7 +591,7 @@ class QFn:
 class QueueTranslator:
     WANT = ["_get_anti_commutates", "_get_max_connected", "_append_to_queue", "_get_queue",
             "is_empty_legs", "get_vertices", "_gen_one_legs", "get_one_vertices", "check_dependency_one_leg",
-            "_find_in_leg", "find", "is_included", "append", "remove", "replace", "is_empty", "get_center", "append_to_center"]
+            "_find_in_leg", "find", "is_included", "append", "remove", "replace", "is_empty", "get_center", "append_to_center", "get_lits", "lit", "get_pq"]
     HEADER = """(* GENERATED by tools/py2coq.py (py2coq_queue.py) from src/paulie/classifier/morph_factory.py — do not edit *)
 From PauLieRefine Require Import PySem.
 From PauLie Require Import Pauli Collection.
